@@ -191,8 +191,8 @@ def run(prog, chk):
             else:
                 lead &= 0xFF
                 sc = lead - 256 if lead >= 128 else lead   # as (signed) char
-                rr = walk(ln, {ln.params[0]["n"]: sc})
-                lv = fin.eval_expr(ln, ln.nodes[rr]["c"][0], {}) if rr is not None and not isinstance(rr, tuple) else None
+                _sn, rr, fv_ = fin.walk_vals(ln, ln.entry, {ln.params[0]["n"]: sc})
+                lv = fin.eval_expr(ln, ln.nodes[rr]["c"][0], fv_) if isinstance(rr, int) and ln.nodes[rr]["c"] else None
                 lead_ok = lv == nb
         if nb == want and (ok_ret == (1 if want else 0)) and lead_ok:
             chk.ok("C18.c", enc, "U+%X -> %d byte(s), lead byte class agrees with Unicode::length" % (v, nb), "%s:%s" % (enc.file, enc.line), "guards evaluated for the representative", evals=3)
